@@ -51,8 +51,14 @@ def mk_defaults(F):
     left, right = poly2(F, "dl"), poly2(F, "dr")
     center = 0.5 * (left + right) if F.native else F.interp.binop(__import__("ast").Mult, 0.5, F.interp.binop(__import__("ast").Add, left, right))
     F.method(sc, "add_objects", F.new(Lanelet, left, center, right, 1))
+    # the id 0 is a valid id: a neighbour / successor with id 0 is a neighbour, not 'no neighbour'
+    cv = lambda y: (np.array([[10.0, y + 1.0], [20.0, y + 1.25]]), np.array([[10.0, y + 0.5], [20.0, y + 0.75]]), np.array([[10.0, y], [20.0, y + 0.25]]))
+    F.method(sc, "add_objects", F.new(Lanelet, *cv(3.0), 0, [], [], 7, True, None, None))
+    F.method(sc, "add_objects", F.new(Lanelet, *cv(5.0), 7, [0], [0], 0, False, 0, True))
     F.method(sc, "add_objects", F.new(TrafficSign, 5, [TrafficSignElement(TrafficSignIDZamunda.MAX_SPEED, ["10"])], set(), pos(F, "dsign_p")), set())
-    F.method(sc, "add_objects", F.new(TrafficLight, 6, pos(F, "dlight_p")), set())
+    light = F.new(TrafficLight, 6, pos(F, "dlight_p"))
+    F.setattr(light, "active", True)  # a light without cycle switched on through the public setter
+    F.method(sc, "add_objects", light, set())
     mini = lambda p: F.new(st.InitialState, time_step=0, position=pos(F, p + "p"), orientation=ang(F, p + "o"), velocity=F.real(p + "v"))
     F.method(sc, "add_objects", [
         F.new(StaticObstacle, 10, ObstacleType.PARKED_VEHICLE, F.new(Rectangle, positive(F, "ds_l"), positive(F, "ds_w")), mini("ds_i_")),
